@@ -81,6 +81,9 @@ func ParseReadInputRegistersRequestTCP(data []byte) (*ReadInputRegistersRequestT
 	if err != nil {
 		return nil, err
 	}
+	if len(data) < 12 {
+		return nil, newErrorParseTCPTooShort(header, data, FunctionReadInputRegisters)
+	}
 	unitID := data[6]
 	if data[7] != FunctionReadInputRegisters {
 		tmpErr := NewErrorParseTCP(ErrIllegalFunction, "received function code in packet is not 0x04")
